@@ -52,11 +52,16 @@ def times_value(draw, lo, hi, form):
 
 
 def attach(node, t, spelling):
-    """spelling: 'inside' ({m: {times: t}}), 'sibling' ({m: [...], times: t})."""
+    """spelling: 'inside' ({m: {times: t}}), 'sibling' ({m: [...], times: t}), 'sibling-first' ({times: t, m: [...]}: a YAML
+    mapping has no order, the sibling key may just as well be written first)."""
     if isinstance(node, (str, int)):
         if spelling == "inside":
             return {node: {"times": t}}
-        return {node: [], "times": t}
+        return {"times": t, node: []} if spelling == "sibling-first" else {node: [], "times": t}
+    if spelling == "sibling-first":
+        d = {"times": t}
+        d.update(node)
+        return d
     d = dict(node)
     d["times"] = t
     return d
@@ -124,7 +129,7 @@ def cases(draw):
     lo = draw(st.integers(0, 4))
     hi = lo if form == "int" else draw(st.integers(lo, min(6, lo + 3)))
     t = times_value(draw, lo, hi, form)
-    spelling = draw(st.sampled_from(["inside", "sibling"]))
+    spelling = draw(st.sampled_from(["inside", "sibling", "sibling-first"]))
     full = draw(st.sampled_from([(False, False), (False, False), (True, False), (False, True), (True, True)]))
     if shape == "free":
         L = draw(listings(min_len=2, max_len=12))
